@@ -57,6 +57,18 @@ func c01Apply(w bfs.World, o bfs.Op, check bool) *bfs.Violation {
 			return &bfs.Violation{Signature: "c01:error-not-rolled-back", What: fmt.Sprintf("%s: %v returned %v but the best chain changed: tip %d -> %d, first differing keys %v", u.Describe(), op, err, tipBefore, tipAfter, head(d, 4))}
 		}
 	}
+	if op.Kind == "validated" {
+		// pre-validated blocks are stored without a supplement, which blocks below the v2 require height need:
+		// such a submission must be refused (and, like every refusal, change nothing - checked above)
+		for _, k := range op.Blocks {
+			if u.Nodes[k].Height < u.Net.HardforkV2.RequireHeight {
+				if err == nil {
+					return &bfs.Violation{Signature: "c01:prevalidated-below-require-height-accepted", What: fmt.Sprintf("%s: %v carries a block below the v2 require height (its supplement is not empty in general) but AddValidatedV2Blocks returned nil", u.Describe(), op)}
+				}
+				return nil
+			}
+		}
+	}
 	if single && parentKnown {
 		last := op.Blocks[len(op.Blocks)-1]
 		allHeaderOK := true
@@ -136,8 +148,76 @@ func c01RequireHeightContract() {
 	}
 }
 
+// c01ParentCorruptions: the parent id of a block is a field like any other. A block whose parent id is replaced
+// by the zero id (the "parent" of genesis), by the genesis id, by its own id or by an unknown id must be refused
+// with an error - no panic - and leave the node as it was.
+func c01ParentCorruptions() {
+	for _, reg := range []univ.Regime{univ.RegimeV1, univ.RegimeX, univ.RegimeV2} {
+		u := univ.NewUniverse("parent-corruptions", reg)
+		k := 0
+		for h := 1; h <= 6; h++ {
+			k = u.Add(k, 0, nil, nil, fmt.Sprintf("m%d", h))
+		}
+		for _, at := range []int{1, 3, 6} {
+			for _, kind := range []string{"zero", "genesis", "self", "unknown"} {
+				n := node.New(u)
+				n.CM.AddBlocks(u.Blocks(u.PathTo(at - 1)))
+				before, _ := n.CanonDump()
+				tipBefore := n.CM.Tip()
+				b := u.Nodes[u.PathTo(at)[at-1]].Block
+				if b.V2 != nil {
+					v2 := *b.V2
+					b.V2 = &v2
+				}
+				switch kind {
+				case "zero":
+					b.ParentID = types.BlockID{}
+				case "genesis":
+					b.ParentID = u.Genesis.ID()
+				case "self":
+					b.ParentID = b.ID()
+				case "unknown":
+					b.ParentID = types.BlockID{0xAA, 0xBB}
+				}
+				if at == 1 && kind == "genesis" {
+					continue // unchanged
+				}
+				// re-mine against the state the node would look the parent up under, where there is one
+				if cs, ok := n.CM.State(b.ParentID); ok {
+					func() {
+						defer func() { recover() }()
+						univ.Mine(cs, &b)
+					}()
+				}
+				run.Add(1, 1, 1, 1)
+				var err error
+				var pan any
+				func() {
+					defer func() { pan = recover() }()
+					err = n.CM.AddBlocks([]types.Block{b})
+				}()
+				what := fmt.Sprintf("[%s] block for height %d with its parent id replaced by %s", reg, at, kind)
+				switch {
+				case pan != nil:
+					run.Violate("c01:panic:parent-id-"+kind, fmt.Sprintf("%s: AddBlocks panicked: %v", what, pan), map[string]any{"regime": string(reg), "height": at})
+				case n.CM.Tip() != tipBefore:
+					run.Violate("c01:tip-moved:parent-id-"+kind, fmt.Sprintf("%s: the tip moved to %v (err=%v)", what, n.CM.Tip(), err), nil)
+				case err == nil && kind != "genesis":
+					run.Violate("c01:no-error:parent-id-"+kind, what+": AddBlocks returned nil", nil)
+				default:
+					if after, _ := n.CanonDump(); len(node.DiffDumps(before, after)) > 0 {
+						run.Violate("c01:store-changed:parent-id-"+kind, what+": the refused block changed what the store serves for the best chain", nil)
+					}
+				}
+				run.Distinct("parent-corruption", string(reg), at, kind, err != nil)
+			}
+		}
+	}
+}
+
 func c01() {
 	c01RequireHeightContract()
+	c01ParentCorruptions()
 	n, depth := 4, 5
 	if run.Thorough() {
 		n, depth = 5, 7
